@@ -23,6 +23,7 @@ pub fn dispatch(line: &str) -> String {
         "pexpr" => lang::pexpr(rest),
         "pprog" => lang::pprog(rest),
         "compile" => lang::compile(rest),
+        "resolve" => lang::resolve(rest),
         "eval" => lang::eval(rest),
         "vmrun" => lang::vmrun(rest),
         "core" => lang::core(rest),
